@@ -330,3 +330,18 @@ def constraint_composition_keeps_every_solver(ctx):
     ctx.stats['terms_compared'] += len(got)
     ctx.check(got == want, 'generate_constraint', 'flatten, then one coupling type per solver, then fold in order',
               'generate_constraint differs from its confirmed behaviour (solvers can be dropped or coupled differently): %s' % SB.diff(got, want), f, f.node)
+
+
+@rule('C13.h', min_instances=4)
+def plain_bounds_constraint_clips_to_the_given_box(ctx):
+    """boundsconstrain(symbolic=False) clips through constraints.bounded: membership on closed intervals, only out-of-range entries are rewritten, a None bound becomes -inf (lower row) / +inf (upper row) through that row's own mask (shared with C16.h)"""
+    from .c16 import bounded_membership_and_addressing
+    bounded_membership_and_addressing(ctx)
+
+
+@rule('C13.i', min_instances=3)
+def symbolic_bounds_constraint_keeps_tied_bounds(ctx):
+    """the symbolic bounds constraint is simplified before it is compiled: a coordinate with min[i] == max[i] survives only because the lines of a system are merged with the exclusive table ('x >= c', 'x <= c' -> 'x = c'), selected by an explicit inclusive=False that merge reads as given (`in kwds`, not truthiness) - shared with C12.c / C12.f"""
+    from .c12 import merge_tables, systems_are_merged_as_conjunctions
+    merge_tables(ctx)
+    systems_are_merged_as_conjunctions(ctx)
